@@ -29,11 +29,23 @@ def groups(tier, seed):
     gs = [f"compose:{n}" for n in COMPOSE] + [f"telescope:{n}" for n in COMPOSE]
     gs += [f"jit:{c.name}" for c in corpus.cases(tier)]
     gs += ["index:vmapped", "index:top_vmap", "index:top_scan"]
+    # the inductive steps themselves, on the combinators whose traces carry the most bookkeeping (the full sets are the
+    # C03 / C04 / C09 / C12 checks): every operation maps a coherent trace to a coherent trace
+    gs += [f"step:{m}:{g_}" for m, g_ in INDUCTIVE_STEPS]
     return gs
+
+
+INDUCTIVE_STEPS = [("C03", "update:top_scan"), ("C03", "update:scanned"), ("C03", "update:top_vmap"), ("C03", "update:branching"),
+                   ("C04", "regenerate:scanned"), ("C04", "regenerate:top_cond"), ("C09", "mh:scanned:a"), ("C09", "mala:two_normals:x:0.25"),
+                   ("C12", "resample:categorical:2"), ("C12", "resample:systematic:2")]
 
 
 def run_group(g, gid):
     kind, _, name = gid.partition(":")
+    if kind == "step":
+        import importlib
+        mod, _, sub = name.partition(":")
+        return importlib.import_module(f"vlib.props.{mod}").run_group(g, sub)
     case = corpus.get(name)
     gf = rs.to_genjax(case.prog)
     g.programs.add(case.name)
